@@ -24,6 +24,8 @@ HARNESSES = [
       {'bound': '3 networks x 48 difficulties (exponent 1..8 x 6 mantissas incl. zero, the minima and a negative one) x all 192-bit hashes', 'timeout': 250, 'jobs': 16}, {'bound': 'as quick', 'timeout': 600, 'jobs': 16}, covers=(1, 2), jobs=16),
     H('h_vbkplaus', 'MODE_VBKPLAUS', ['checkVbkBlockPlausibility == the documented window: height at or above the progpow fork height and inside the supported epochs; on networks with a progpow start time the timestamp lies in [max(start, start + 30s*(h-fork)*10/12 - 5 days), start + 30s*(h-fork)*12/10 + 5 days]'],
       {'bound': '3 networks, 41 heights from fork-16 to fork+71064 (case split), all 2^32 timestamps (symbolic)', 'timeout': 250, 'jobs': 16}, {'bound': 'as quick', 'timeout': 600, 'jobs': 16}, covers=(1, 2, 3), jobs=16),
+    dict(H('h_vbkepoch', 'MODE_VBKEPOCH', ['a VBK header that passes checkVbkBlockPlausibility lies in an epoch the proof-of-work hash supports: the real ethash_get_cachesize (first step of the hash; asserts epoch < 4096) does not abort on its height'],
+      {'bound': '3 networks, heights at both ends of epochs 0, 1, 4095, 4096 and at 4097', 'timeout': 200}, {'bound': 'as quick', 'timeout': 400}, covers=(1, 2), jobs=4), repo_srcs=SRCS + ['src/pop/crypto/progpow/libethash/internal.cpp', 'src/pop/crypto/progpow/libethash/cache_sizes.cpp', 'src/pop/crypto/progpow/libethash/dag_sizes.cpp']),
     H('h_vbkctx', 'MODE_VBKCTX', ['checkVbkBlocks valid iff every header meets its PoW, heights increase by exactly one and each header carries the last 12 bytes of its predecessor\'s hash'],
       {'defines': ['NBLK=3'], 'bound': '3 networks, 1..3 headers, two difficulties, 2 symbolic hash bytes each, link / height breaks', 'timeout': 250}, {'defines': ['NBLK=4'], 'bound': '1..4 headers', 'timeout': 900, 'jobs': 16}, covers=(1, 2, 3)),
 ]
